@@ -25,7 +25,8 @@ from symx.values import zreal
 
 BOUNDS = {
     "quick": "all dependency DAGs over 3 parameters x all 6 declaration orders x 3 expression vocabularies, nested and flat "
-    "labels, 2 symbolic updates + copy; all plain values symbolic; plus 3 four-parameter graphs (chain, diamonds) x 4 declaration orders",
+    "labels, 2 symbolic updates + copy; all plain values symbolic; plus 3 four-parameter graphs (chain, diamonds) x 4 declaration orders; "
+    "9 life-cycle configurations with expressions assigned to existing Parameter objects",
     "thorough": "additionally all DAGs over 4 parameters x all 24 declaration orders (seeded vocabulary), 3 updates",
 }
 OUTSIDE = "5-6 parameters; loading from yml/csv files (file I/O); expressions outside the vocabulary (+ - * / exp sqrt)"
